@@ -365,23 +365,37 @@ def _gen_otsvg(rng, i=None):
         # of shared paths are "<glyph name>.<n>", so the owner of a path is everything before
         # the LAST dot -- and here the two glyphs share a shape
         glyphs[0].name, glyphs[1].name = rng.choice([("flag.alt", "flag"), ("flag", "flag.alt"), ("a.b.c", "zed")])
-        if glyphs[0].viewbox == glyphs[1].viewbox:
-            sh = next((x for x in e2e.all_shapes(glyphs[0]) if isinstance(x.fill, e2e.Solid)), None)
-            if sh is not None:
-                glyphs[1].items.append(e2e.Shape([(px + 3, py + 2) for px, py in sh.pts], e2e.Solid(e2e._rgb(rng)), 1.0))
+        if glyphs[0].viewbox != glyphs[1].viewbox:
+            vb = glyphs[0].viewbox
+            glyphs[1] = e2e.GlyphSpec(vb, [e2e.Shape(e2e._poly(rng, vb), e2e.Solid(e2e._rgb(rng)), 1.0)], glyphs[1].codepoints)
+            glyphs[1].name = {"flag.alt": "flag", "flag": "flag.alt", "a.b.c": "zed"}[glyphs[0].name]
+        sh = next((x for x in e2e.all_shapes(glyphs[0]) if isinstance(x.fill, e2e.Solid)), None)
+        if sh is None:
+            sh = e2e.Shape(e2e._poly(rng, glyphs[0].viewbox), e2e.Solid(e2e._rgb(rng)), 1.0)
+            glyphs[0].items.append(sh)
+        glyphs[1].items.append(e2e.Shape([(px + 3, py + 2) for px, py in sh.pts], e2e.Solid(e2e._rgb(rng)), 1.0))
     if forced == "prefix" or rng.random() < 0.3:
         # glyph names that are prefixes of one another (a sequence and its leading
         # codepoint), in either input order
         seqs = rng.choice([[(0x1F44B, 0x1F3FB), (0x1F44B,)], [(0x1F468,), (0x1F468, 0x200D, 0x1F469)], [(0x41, 0x42), (0x41,), (0x41, 0x42, 0x43)]])
         seqs = list(seqs)
         rng.shuffle(seqs)
+        if forced == "prefix":
+            # deterministic by case index: the longer name first in every other forced case
+            # (the shape is then owned by the glyph whose name the other's name is a prefix of)
+            seqs.sort(key=len, reverse=(i // 8) % 2 == 0)
         for g, cps in zip(glyphs, seqs):
             g.codepoints = cps
-        if forced == "prefix" and len(glyphs) >= 2 and glyphs[0].viewbox == glyphs[1].viewbox:
+        if forced == "prefix" and len(glyphs) >= 2:
             # ... and the two prefix-related glyphs share a shape (reuse spans the glyphs)
+            if glyphs[0].viewbox != glyphs[1].viewbox:
+                vb = glyphs[0].viewbox
+                glyphs[1] = e2e.GlyphSpec(vb, [e2e.Shape(e2e._poly(rng, vb), e2e.Solid(e2e._rgb(rng)), 1.0)], glyphs[1].codepoints)
             sh = next((x for x in e2e.all_shapes(glyphs[0]) if isinstance(x.fill, e2e.Solid)), None)
-            if sh is not None:
-                glyphs[1].items.append(e2e.Shape([(px + 2, py + 1) for px, py in sh.pts], e2e.Solid(e2e._rgb(rng)), 1.0))
+            if sh is None:
+                sh = e2e.Shape(e2e._poly(rng, glyphs[0].viewbox), e2e.Solid(e2e._rgb(rng)), 1.0)
+                glyphs[0].items.append(sh)
+            glyphs[1].items.append(e2e.Shape([(px + 2, py + 1) for px, py in sh.pts], e2e.Solid(e2e._rgb(rng)), 1.0))
     return {"glyphs": glyphs, "overrides": over_}
 
 
